@@ -1,5 +1,5 @@
 (** C07 — Compact bigram connectors compute the defining feature-pair sum. *)
-From Vib Require Import Model.Base Model.Scorer Proofs.ScorerProofs.
+From Vib Require Import Model.Base Model.Scorer Proofs.ScorerProofs Proofs.RawSpecProofs.
 Local Open Scope N_scope.
 
 (** The XOR double array ([bases], [checks]/[costs]) built by [ScorerBuilder::build] answers
@@ -21,6 +21,17 @@ Theorem c07_raw_cost : forall fuel right left lines rc, build_raw fuel right lef
   forall r l, raw_cost rc r l = lane_sum T (nth (N.to_nat r) (rc_right rc) []) (nth (N.to_nat l) (rc_left rc) []).
 Proof. exact raw_cost_lane_sum. Qed.
 
+(** ... and that lane sum over feature IDS is the defining sum over feature STRINGS: interning gives
+    equal strings equal ids and different strings different ids, the empty feature is id 0 (the
+    BOS/EOS row), a feature that occurs in no cost line gets the invalid id and contributes 0, and
+    the last listing of a pair wins.  So for every connection-id pair the raw connector returns
+    exactly [spec_cost]: the sum over positions of the listed cost of (right feature, left feature). *)
+Theorem c07_raw_is_defining_sum : forall fuel right left lines rc,
+  build_raw fuel right left lines = Some rc -> N.of_nat (length lines) + 1 < INVALID ->
+  forall r l, (N.to_nat r <= length right)%nat -> (N.to_nat l <= length left)%nat ->
+  raw_cost rc r l = spec_cost right left lines r l.
+Proof. exact raw_cost_spec. Qed.
+
 (** non-vacuity and an instance of the property: A/a listed with 5, '*' and the BOS row *)
 Example c07_example :
   match build_raw 100 [[[65%N]; [42%N]]] [[[97%N]; [42%N]]] [([65%N], [97%N], 5%Z); ([], [97%N], 7%Z)] with
@@ -34,3 +45,4 @@ Check c07_scorer_correct.
 Print Assumptions c07_scorer_correct.
 Print Assumptions c07_trie_wellformed.
 Print Assumptions c07_raw_cost.
+Print Assumptions c07_raw_is_defining_sum.
